@@ -7,7 +7,6 @@ set -e
 . $VERIF/harness/c08/igc_objs.sh
 H=$VERIF/harness/c08
 igc_shim $BUILD/shim
-export IGC_KEEP="__stack_chk_fail __errno_location"
 OBJS=""
 for f in $REPO/compat/libc/string/*.c; do
     o=$BUILD/igc_$(basename $f .c).o
@@ -28,6 +27,8 @@ CXX="g++ -std=c++17 -O2 -g -fno-builtin -I$MC -I$H"
 for t in c08_common c08_str c08_mem c08_tok; do par $CXX -c $H/$t.cpp -o $BUILD/$t.o; done
 par g++ -std=c++17 -O2 -c -I$MC $MC/mc.cpp -o $BUILD/mc.o
 parwait
+igc_resolve $OBJS
+igc_resolve $TOBJS
 # every statement-listed function must come from the repository, none may be left undefined
 for fn in memcpy memmove memset memcmp memchr memrchr strlen strnlen strcpy strncpy strlcpy strcat strncat strcmp strncmp \
           strcasecmp strncasecmp strchr strrchr strchrnul strstr strcasestr strspn strcspn strpbrk strtok strtok_r strdup strndup strlwr strupr; do
